@@ -1,3 +1,133 @@
-import NxModel.Bytes
-/-! driver stub for C03 (replaced when the property's model lands) -/
-def main : IO Unit := IO.println "stub C03"
+import NxModel.Prudp.PacketIO
+import NxModel.DriverUtil
+/-! line-protocol driver for the PRUDP L0 codecs (packet syntax: see NxModel/Prudp/PacketIO.lean)
+
+  v0enc  sv cv fv key <packet>          -> ok <hex> | err <Name>          (checked encoder)
+  v0enct sv cv fv key <packet>          -> ok <hex>                       (total encoder)
+  v0dec  sv cv fv key <hex>             -> ok [<packet> | <packet> …] | err <Name>
+  v0wf   sv cv fv key <packet>          -> true | false
+  v0ck   cv key <hex>                   -> <nat>
+  v1enc / v1enct / v1wf <packet>, v1dec <hex>, v1hdr <optsize> <packet>, v1opts <packet>
+  liteenc / liteenct / litewf <packet>, litehdr <optsize> <packet>, liteopts <packet>
+  litefeed <bufhex> <chunkhex>          -> ok [<packets>] buf <hex> | err <Name> buf <hex>
+  optenc <k=v,…>                        -> ok <hex> | err <Name>
+  optdec <hex>                          -> ok [k=v,…] | err <Name>
+  sel <transport> <version> <pver|none> -> v0 | v1 | lite
+  ana <transport> <version> <hex>       -> v0 | v1 | lite
+  selenc <transport> <version> sv cv fv key <packet>
+  seldec <transport> <version> sv cv fv key <bufhex> <hex>  -> like litefeed
+-/
+open Nx Nx.Prudp
+
+def showCodec : Codec → String
+  | .v0 => "v0"
+  | .v1 => "v1"
+  | .lite => "lite"
+
+def showFeed (r : Except Err (List Packet) × Bytes) : String :=
+  showDec r.1 ++ " buf " ++ hexOut r.2
+
+def showBool (b : Bool) : String := if b then "true" else "false"
+
+def step (line : String) : String :=
+  match line.splitOn " " with
+  | "v0enc" :: sv :: cv :: fv :: key :: pk =>
+    match parseV0Cfg sv cv fv key, parsePacket pk with
+    | some c, some p => showRes (v0EncodeChecked c p)
+    | _, _ => "bad-op"
+  | "v0enct" :: sv :: cv :: fv :: key :: pk =>
+    match parseV0Cfg sv cv fv key, parsePacket pk with
+    | some c, some p => "ok " ++ hexOut (v0Encode c p)
+    | _, _ => "bad-op"
+  | "v0wf" :: sv :: cv :: fv :: key :: pk =>
+    match parseV0Cfg sv cv fv key, parsePacket pk with
+    | some c, some p => showBool (decide (V0WF c p))
+    | _, _ => "bad-op"
+  | ["v0dec", sv, cv, fv, key, data] =>
+    match parseV0Cfg sv cv fv key, fromHex data with
+    | some c, some d => showDec (v0Decode c d)
+    | _, _ => "bad-op"
+  | ["v0ck", cv, key, data] =>
+    match parseV0Cfg "0" cv "0" key, fromHex data with
+    | some c, some d => toString (v0Checksum c d)
+    | _, _ => "bad-op"
+  | "v1enc" :: pk =>
+    match parsePacket pk with
+    | some p => showRes (v1EncodeChecked p)
+    | none => "bad-op"
+  | "v1enct" :: pk =>
+    match parsePacket pk with
+    | some p => "ok " ++ hexOut (v1Encode p)
+    | none => "bad-op"
+  | "v1wf" :: pk =>
+    match parsePacket pk with
+    | some p => showBool (decide (V1WF p))
+    | none => "bad-op"
+  | "v1hdr" :: os :: pk =>
+    match os.toNat?, parsePacket pk with
+    | some os, some p => "ok " ++ hexOut (v1EncodeHeader p os)
+    | _, _ => "bad-op"
+  | "v1opts" :: pk =>
+    match parsePacket pk with
+    | some p => showRes (encodeOptionsChecked (v1Options p))
+    | none => "bad-op"
+  | ["v1dec", data] =>
+    match fromHex data with
+    | some d => showDec (v1Decode d)
+    | none => "bad-op"
+  | "liteenc" :: pk =>
+    match parsePacket pk with
+    | some p => showRes (liteEncodeChecked p)
+    | none => "bad-op"
+  | "liteenct" :: pk =>
+    match parsePacket pk with
+    | some p => "ok " ++ hexOut (liteEncode p)
+    | none => "bad-op"
+  | "litewf" :: pk =>
+    match parsePacket pk with
+    | some p => showBool (decide (LiteWF p))
+    | none => "bad-op"
+  | "litehdr" :: os :: pk =>
+    match os.toNat?, parsePacket pk with
+    | some os, some p => "ok " ++ hexOut (liteEncodeHeader p os)
+    | _, _ => "bad-op"
+  | "liteopts" :: pk =>
+    match parsePacket pk with
+    | some p => showRes (encodeOptionsChecked (liteOptions p))
+    | none => "bad-op"
+  | ["litefeed", buf, chunk] =>
+    match fromHex buf, fromHex chunk with
+    | some b, some c => showFeed (liteFeed b c)
+    | _, _ => "bad-op"
+  | ["optenc", o] =>
+    match parseOpts o with
+    | some o => showRes (encodeOptionsChecked o)
+    | none => "bad-op"
+  | ["optdec", data] =>
+    match fromHex data with
+    | some d =>
+      match decodeOptions d with
+      | .ok o => showOpts o
+      | .error e => "err " ++ e.name
+    | none => "bad-op"
+  | ["sel", t, v, pv] =>
+    match t.toNat?, v.toNat?, parseOptNat pv with
+    | some t, some v, some pv => showCodec (select { transport := t, version := v } pv)
+    | _, _, _ => "bad-op"
+  | ["ana", t, v, data] =>
+    match t.toNat?, v.toNat?, fromHex data with
+    | some t, some v, some d => showCodec (analyze { transport := t, version := v } d)
+    | _, _, _ => "bad-op"
+  | "selenc" :: t :: v :: sv :: cv :: fv :: key :: pk =>
+    match t.toNat?, v.toNat?, parseV0Cfg sv cv fv key, parsePacket pk with
+    | some t, some v, some c, some p =>
+      showRes (encodeChecked { v0 := c, sel := { transport := t, version := v } } p)
+    | _, _, _, _ => "bad-op"
+  | ["seldec", t, v, sv, cv, fv, key, buf, data] =>
+    match t.toNat?, v.toNat?, parseV0Cfg sv cv fv key, fromHex buf, fromHex data with
+    | some t, some v, some c, some b, some d =>
+      showFeed (decode { v0 := c, sel := { transport := t, version := v } } b d)
+    | _, _, _, _, _ => "bad-op"
+  | _ => "bad-op"
+
+def main : IO Unit := runLines step
